@@ -25,8 +25,9 @@ OctavesNeg(op, lo, hi, pts) == [i \in 1..(hi - lo + 1) |-> SweepZ(op, "fx", ZNeg
 
 (* ---- C09 ------------------------------------------------------------------------------------------ *)
 PhiMultiples == {ZN(k) ** QuarterPhi : k \in (-9)..9} \cup {ZN(k) ** HalfPhi : k \in (-5)..5} \cup {ZN(k) ** Phi : k \in (-2)..2}
-PerK == {ZN(1), ZN(-1), ZN(2), ZN(-2), ZN(3), ZN(-3), ZN(1000), ZN(-1000), ZN(170892343), ZN(-170892343)}
-WidthEdges == UNION {{P(k) -- Z1, P(k), P(k) ++ Z1, P(k) -- HalfPhi, (P(k) -- HalfPhi) -- Z1, (P(k) -- HalfPhi) ++ Z1, P(k) -- ZN(50000), P(k) -- TwoPhi} : k \in {15, 16, 24, 31, 32, 33, 40}}
+PerK == {ZN(1), ZN(-1), ZN(2), ZN(-2), ZN(3), ZN(-3), ZN(1000), ZN(-1000), ZN(170892343), ZN(-170892343), ZN(1000000000), ZN(-1000000000),
+         P(40), ZNeg(P(40)), P(43), ZNeg(P(43))}
+WidthEdges == UNION {{P(k) -- Z1, P(k), P(k) ++ Z1, P(k) -- HalfPhi, (P(k) -- HalfPhi) -- Z1, (P(k) -- HalfPhi) ++ Z1, P(k) -- ZN(50000), P(k) -- TwoPhi} : k \in {15, 16, 24, 31, 32, 33, 40, 46, 47, 48, 53, 61}}
 PerX == PM(WidthEdges) \cup {Z0, Z1, ZN(-1), ZN(51472), ZN(-51472), HalfPhi, ZNeg(HalfPhi), HalfPhi ++ Z1, HalfPhi -- Z1, Phi, ZNeg(Phi), ZN(308831), ZN(308832),
          ZN(-102945), ZN(-102943), TwoPhi, ZNeg(TwoPhi), ZN(65536), ZN(-65536), ZN(12345), ZN(-54321), ZN(400000), ZN(-400000), P(45), ZNeg(P(45))}
 PerPairs == {<<x, x ++ (k ** TwoPhi)>> : x \in PerX, k \in PerK} \cup {<<x, x -- ((x // TwoPhi) ** TwoPhi)>> : x \in PerX}
@@ -36,7 +37,8 @@ Jobs_C09 ==
       \o S2Q({Sweep(op, "fx", m -- ZN(48), m ++ ZN(48), 1) : m \in PhiMultiples})
       \o S2Q({Sweep(op, "fx", m -- ZN(2), m ++ ZN(2), 1) : m \in {ZNeg(TwoPhi) ++ ZN(2), TwoPhi -- ZN(2)}})
       \o S2Q({Pair(op \o "_pair", p[1], p[2]) : p \in {q \in PerPairs : (ZAbs(q[2]) \prec P(46))}})
-      \o <<RandPair(op \o "_pair", NR(4000, 200000), Seed + f, 46, "period", TwoPhi, 0), RandPair(op \o "_pair", NR(1500, 100000), Seed + 2 + f, 33, "period", TwoPhi, 0)>>])
+      \o <<RandPair(op \o "_pair", NR(3000, 200000), Seed + f, 62, "period", TwoPhi, 0), RandPair(op \o "_pair", NR(1500, 100000), Seed + 2 + f, 33, "period", TwoPhi, 0),
+           RandPair(op \o "_pair", NR(1500, 100000), Seed + 4 + f, 48, "period", TwoPhi, 0)>>])
 
 (* ---- C10 ------------------------------------------------------------------------------------------ *)
 TanPeriodK == {Z1, ZN(2), ZN(3), ZN(7), ZN(1000), ZN(1234567), P(40)}
@@ -214,17 +216,26 @@ Jobs_C17 ==
    \o FlatSeq([i \in 1..NT |-> Cat({ProgJobsT("mul_n_sum", <<a, Z0, Z0>>, n, IntTagsG[i]) : a \in {Z1, ZN(-98304), P(40)}, n \in {ZN(3), ZN(11)}})])
 
 (* ---- C07: every entry point, finite and NaN operands, to be run in the sanitizer configurations ------------------ *)
-Lm07 == PM({Z0, Z1, ZN(65535), ZN(65536), ZN(98304), HalfPhi, Phi, ZN(39322), P(31), P(32), P(37), P(46) -- Z1, P(46), DomLim -- Z1, DomLim, P(48) -- Z1, P(48), P(55),
+Lm07 == PM({ZISqrt(P(63)) ++ Z1, P(32) -- Z1, ZN(50000) ** OneFx, Z0, Z1, ZN(65535), ZN(65536), ZN(98304), HalfPhi, Phi, ZN(39322), P(31), P(32), P(37), P(46) -- Z1, P(46), DomLim -- Z1, DomLim, P(48) -- Z1, P(48), P(55),
             P(62), P(62) ++ P(61), Maxv -- ZN(65536), Maxv -- ZN(65535), Maxv -- Z1, Maxv, NaNv})
 Un07 == {"neg", "abs", "isnan", "floor", "ceil", "sqrt", "sqrt_abacus", "sqrt_std", "sin", "cos", "tan", "atan", "asin", "acos", "atan_index_aprox", "sqrt_aprox",
          "atan_aprox", "sin_angle", "cos_angle", "tan_angle", "f2d", "f2f", "rt_d"}
 Bin07 == {"add", "sub", "mul", "div", "and", "cmp", "atan2", "hypot", "hypot_aprox"}
+Lm07F == {x \in Lm07 : Finite(x)}
+Cat07(SS) == S2Q(UNION SS)
 Fx07 == {x \in Lm07 : ZAbs(x) \in {Z0, Z1, ZN(98304), P(32), P(48), P(62), Maxv, NaNv}}
 Jobs_C07 ==
    S2Q({Call(op, <<"fx">>, <<x>>) : op \in Un07, x \in Lm07})
    \o S2Q({CallVia("f2i", <<"fx">>, <<x>>, "f2i", IntTagsG[i]) : x \in Lm07, i \in 1..NT})
    \o S2Q({Call(op, <<"fx", "fx">>, <<x, y>>) : op \in Bin07, x \in Lm07, y \in Lm07})
    \o S2Q({CallAsg(op, <<"fx", "fx">>, <<x, y>>) : op \in Ops4, x \in Fx07, y \in Fx07})
+   (* second operands solved so that the exact result sits on the contract / word boundaries *)
+   \o Cat07({{Call("mul", <<"fx", "fx">>, <<x, y>>) : y \in SolveMul(x)} : x \in Lm07F})
+   \o Cat07({{Call("add", <<"fx", "fx">>, <<x, y>>) : y \in SolveAdd(x)} : x \in Lm07F})
+   \o Cat07({{Call("sub", <<"fx", "fx">>, <<x, y>>) : y \in SolveSub(x)} : x \in Lm07F})
+   \o <<RandM("mul", <<"fx", "fx">>, NR(3000, 100000), Seed + 69, "prodedge"), RandB("mul", <<"fx", "fx">>, NR(1500, 50000), Seed + 70, 32), RandB("mul", <<"fx", "fx">>, NR(1500, 50000), Seed + 71, 33),
+        RandB("mul", <<"fx", "fx">>, NR(1000, 50000), Seed + 72, 40), RandB("div", <<"fx", "fx">>, NR(1000, 50000), Seed + 73, 48),
+        RandB("hypot", <<"fx", "fx">>, NR(1000, 50000), Seed + 74, 31), RandB("atan2", <<"fx", "fx">>, NR(1000, 50000), Seed + 75, 33)>>
    \o S2Q({CallR(op, x, r) : op \in {"shl", "shr"}, x \in Fx07 \cup {Maxv -- Z1, ZN(-3)}, r \in ShiftCounts})
    \o FlatSeq([i \in 1..NT |-> LET tg == IntTagsG[i] IN
          S2Q({CallM(op, <<"fx", tg>>, <<Enc(x), Enc(n)>>, asg) : op \in Ops4, x \in Fx07, n \in IntLm(tg), asg \in {0, 1}})
